@@ -3,7 +3,7 @@ From Coq Require Import List ZArith Bool.
 From NX Require Import Bytes Frame Reasm Reasm_proofs Codec Codec_proofs Family Family_proofs
   Pinned_comm Pinned_parse Pinned_parserecv.
 From Coq Require Import String.
-From NX Require PyLite Src_all Src_serialframe_proofs Src_reasm_proofs Src_reasm_generic Src_xorframe_proofs.
+From NX Require PyLite Src_all Src_serialframe_proofs Src_reasm_proofs Src_reasm_generic Src_xorframe_proofs Src_parserecv_proofs.
 Import ListNotations.
 
 (** frame reassembly over an ARBITRARY codec that honours the interface laws
@@ -68,6 +68,13 @@ Proof. exact gsrc_recv_all_scan. Qed.
 (** not vacuous: the built-in codec object implements the built-in codec record *)
 Theorem C20_builtin_implements_src : implements sf serial_codec 3.
 Proof. exact sf_implements. Qed.
+
+(** the device-side dispatcher asks the codec only for hdr_find / hdr_len / foot_len / hdr_decode /
+    foot_validate, in the order and with the guards of the model (here with the built-in codec object;
+    any change of that text breaks this obligation) *)
+Theorem C20_dispatch_refines_src : forall n lg d,
+  call_method program (4 + n) (Src_parserecv_proofs.pr lg) "recv_handle" [PBytes d] = Src_parserecv_proofs.emb_recv lg d.
+Proof. exact Src_parserecv_proofs.recv_handle_gen_spec. Qed.
 
 (** a CUSTOM codec written in Python (class XorFrame of the harness prelude: start 0x7E, id,
     16-bit little-endian length, one-byte XOR footer - translated and interpreted like the
